@@ -484,7 +484,10 @@ impl<'a> Work<'a> {
                 deps.push(fileid);
             }
         }
-        self.graph.builds[id].set_discovered_ins(deps);
+        if !self.options.adopt {
+            // In adopt mode no command ran, so the previously discovered deps still hold.
+            self.graph.builds[id].set_discovered_ins(deps);
+        }
         let build = &self.graph.builds[id];
 
         // Unconditionally stat all inputs and outputs.
